@@ -19,7 +19,9 @@ def run(ctx):
         runs = [("pc", [1, 1, 1, 60, 3]), ("pc", [2, 2, 1, 40, 3]), ("pc", [3, 3, 2, 25, 3]), ("pc", [4, 2, 3, 20, 2]),
                 ("wake", [1, "signal", 25]), ("wake", [4, "signal", 15]), ("wake", [5, "broadcast", 15]), ("wake", [2, "broadcast", 25]),
                 # the signaller's critical section lasts a while: waiters stay blocked for hundreds of milliseconds before the wake-up arrives
-                ("wake", [1, "signal", 3, 260]), ("wake", [2, "signal", 2, 130]), ("wake", [3, "broadcast", 3, 260])]
+                ("wake", [1, "signal", 3, 260]), ("wake", [2, "signal", 2, 130]), ("wake", [3, "broadcast", 3, 260]),
+                # many wake-ups inside one critical section (the waiters cannot run in between): counts around powers of two
+                ("wake", [1, "signal", 2, 0, 256]), ("wake", [3, "broadcast", 2, 0, 256]), ("wake", [2, "signal", 1, 0, 512]), ("wake", [1, "broadcast", 1, 0, 1024]), ("wake", [3, "signal", 1, 0, 255])]
     else:
         for p_ in (1, 2, 4, 8):
             for c_ in (1, 3, 8):
@@ -28,13 +30,16 @@ def run(ctx):
         for n in (1, 2, 3, 5, 8):
             runs.append(("wake", [n, "signal", 30]))
             runs.append(("wake", [n, "broadcast", 30]))
+            for burst in (2, 128, 256, 257, 512, 1024, 4096, 65536):
+                runs.append(("wake", [n, "signal", 1, 0, burst]))
+                runs.append(("wake", [n, "broadcast", 1, 0, burst]))
             for hold in (60, 130, 260, 520):
                 runs.append(("wake", [n, "signal", 3, hold]))
                 runs.append(("wake", [n, "broadcast", 3, hold]))
     for i, (mode, a) in enumerate(runs):
         base = ctx.path("cv%d" % i)
         cmd = [exe, mode, base] + [str(x) for x in a] + ([str(rng.randint(1, 10 ** 6))] if mode == "pc" else [])
-        label = "%s:%s" % (mode, "x".join(str(x) for x in a[:4]))
+        label = "%s:%s" % (mode, "x".join(str(x) for x in a[:5]))
         rc, out, to = run_driver(cmd, timeout=90)
         if to or rc != 0:
             ctx.notes.append("first run of %s: rc=%s timeout=%s - repeating" % (label, rc, to))
